@@ -416,7 +416,9 @@ class _Worker:
             self.p = None
 
 
-_pool = {"clean": None, "spare": None, "risky": None, "risky_key": None}
+_pool = {"clean": None, "spare": None, "risky": None, "risky_key": None, "crashes": 0}
+MAX_CRASHES = 3      # after that many crashes of the shared worker the real code is not run any more in this process
+SHRINK_BUDGET = {"left": 250}  # total number of shrink candidates per process (each one costs a run of the real code)
 
 
 def _fresh():
@@ -464,9 +466,14 @@ def _call(fn, case):
     if _pool["risky"] is not None:  # the case it served is over: discard it
         _pool["risky"].stop()
         _pool["risky"], _pool["risky_key"] = None, None
+    if _pool["crashes"] >= MAX_CRASHES:
+        return {"not_run": True}
     if _pool["clean"] is None:
         _pool["clean"] = _Worker()
-    return _pool["clean"].call(fn, case)
+    r = _pool["clean"].call(fn, case)
+    if "crash" in r:
+        _pool["crashes"] += 1
+    return r
 
 
 def _worker_main():
@@ -493,6 +500,8 @@ def _worker_main():
 
 def impl_run(case):
     r = _call("impl", case)
+    if "not_run" in r:
+        return {"err": "NOT-RUN: the worker process crashed repeatedly on earlier cases"}
     if "crash" in r:
         return {"err": "CRASH", "returncode": r["crash"]}
     if "harness_exc" in r:
@@ -654,6 +663,8 @@ def oracle(case):
     if case["kind"] in ("nonsquare", "singular"):
         return None
     r = _call("oracle", case)
+    if "not_run" in r:
+        return None  # unknown; the crashes themselves were reported on the cases that caused them
     if "crash" in r:
         cls = _storage_class_m(case)[0]
         return {"what": f"the interpreter aborted (return code {r['crash']}, heap corruption by an out-of-bounds write of the compiled kernel) while inverting; storage of the permuted matrix: {cls}",
@@ -669,6 +680,14 @@ def nontrivial(case):
 
 
 def shrink_candidates(case):
+    for c in _shrink_candidates(case):
+        if SHRINK_BUDGET["left"] <= 0:
+            return
+        SHRINK_BUDGET["left"] -= 1
+        yield c
+
+
+def _shrink_candidates(case):
     if case["kind"] == "nonsquare" or not case.get("sizes"):
         return
     blocks = [[[Fraction(x) for x in r] for r in b] for b in case["blocks"]]
@@ -682,12 +701,23 @@ def shrink_candidates(case):
         rank = {p: r for r, p in enumerate(sorted(kept))}
         return [rank[p] for p in kept]
 
-    # drop one block (storage variations are dropped with it: canonical storage)
+    # drop one block; stored extra entries (zeros, duplicates) that touch it go with it, the others are renumbered
     if len(blocks) > 1:
+        ipr = {p: i for i, p in enumerate(case["pr"])}
+        ipc = {p: i for i, p in enumerate(case["pc"])}
         for k in range(len(blocks)):
-            drop = set(range(offs[k], offs[k] + sizes[k]))
+            lo, hi = offs[k], offs[k] + sizes[k]
+            drop = set(range(lo, hi))
             nb = blocks[:k] + blocks[k + 1:]
-            yield _assemble(nb, [len(b) for b in nb], compress(case["pr"], drop), compress(case["pc"], drop), case["bd"]["fmt"], case["m"]["fmt"], case["kind"])
+            pr2, pc2 = compress(case["pr"], drop), compress(case["pc"], drop)
+            sh = lambda i: i if i < lo else i - sizes[k]
+            v2 = {"shuffle_bd": var["shuffle_bd"], "shuffle_m": var["shuffle_m"]}
+            for key in ("zeros_bd", "dups_bd"):
+                v2[key] = [[sh(e[0]), sh(e[1])] + list(e[2:]) for e in var[key] if e[0] not in drop and e[1] not in drop]
+            for key in ("zeros_m", "dups_m"):
+                bdc = [[ipr[e[0]], ipc[e[1]]] + list(e[2:]) for e in var[key]]
+                v2[key] = [[pr2[sh(e[0])], pc2[sh(e[1])]] + list(e[2:]) for e in bdc if e[0] not in drop and e[1] not in drop]
+            yield _assemble(nb, [len(b) for b in nb], pr2, pc2, case["bd"]["fmt"], case["m"]["fmt"], case["kind"], variations=v2)
     # canonical storage, keeping the structure
     if any(var[k] for k in var) or case["sizes_arg"] != sizes:
         for keep in ("dups_bd", "dups_m", "zeros_m", "zeros_bd", None):
